@@ -448,6 +448,12 @@ func (tb *TB) cmp(op Op, a, b *Term) *Term {
 	if a == b {
 		return tb.Bool(op == OUle || op == OSle)
 	}
+	if b.IsConst() && a.Op == OIte && a.Args[1].IsConst() && a.Args[2].IsConst() {
+		return tb.Ite(a.Args[0], tb.cmp(op, a.Args[1], b), tb.cmp(op, a.Args[2], b))
+	}
+	if a.IsConst() && b.Op == OIte && b.Args[1].IsConst() && b.Args[2].IsConst() {
+		return tb.Ite(b.Args[0], tb.cmp(op, a, b.Args[1]), tb.cmp(op, a, b.Args[2]))
+	}
 	switch op {
 	case OUlt:
 		if b.IsConst() && b.Val == 0 {
@@ -561,6 +567,12 @@ func (tb *TB) Bin(op Op, a, b *Term) *Term {
 	if a.IsConst() && b.IsConst() {
 		v, _ := foldBin(op, w, a.Val, b.Val)
 		return tb.Const(w, v)
+	}
+	if b.IsConst() && a.Op == OIte && a.Args[1].IsConst() && a.Args[2].IsConst() {
+		return tb.Ite(a.Args[0], tb.Bin(op, a.Args[1], b), tb.Bin(op, a.Args[2], b))
+	}
+	if a.IsConst() && b.Op == OIte && b.Args[1].IsConst() && b.Args[2].IsConst() {
+		return tb.Ite(b.Args[0], tb.Bin(op, a, b.Args[1]), tb.Bin(op, a, b.Args[2]))
 	}
 	switch op {
 	case OAdd:
@@ -1131,7 +1143,7 @@ func (tb *TB) Script(asserts []*Term, getVals []*Term) string {
 		fmt.Fprintf(&sb, "(assert %s)\n", ref(a))
 	}
 	for _, t := range order {
-		if (t.Op == OShl || t.Op == OLshr || t.Op == OAshr) && !t.Args[1].IsConst() || t.Op == OMul && !t.Args[1].IsConst() || t.Op == OUF {
+		if (t.Op == OShl || t.Op == OLshr || t.Op == OAshr) && !t.Args[1].IsConst() || (t.Op == OMul || t.Op == OUDiv || t.Op == OSDiv || t.Op == OURem || t.Op == OSRem) && !t.Args[1].IsConst() || t.Op == OUF {
 			sb.WriteString("; symshift\n") // marker: bit-level query, integer encoding unlikely to help
 			break
 		}
